@@ -103,7 +103,7 @@ def run_batch(run, module, mats, rads, name, invariants, action_constraints, wor
         elif line.startswith('"INFO '):
             o = json.loads(json.loads(line)[5:])
             info[o["m"] - 1] = o
-        elif line.startswith('"CFG ') or line.startswith('"TRI ') or line.startswith('"DGC '):
+        elif line.startswith('"CFG ') or line.startswith('"TRI ') or line.startswith('"DGC ') or line.startswith('"LBT '):
             s = json.loads(line)
             tables[s[:3]] = json.loads(s[4:])
     edges = [[] for _ in mats]
@@ -160,24 +160,47 @@ def pack_diagram(edges, container):
     raise ValueError(container)
 
 
-def build_group(M, route="matrix", style="alpha", inf="zero", container="list"):
+# labels may be handed over as Python / numpy integers or as floats with integral values
+# (from_coxeter_matrix accepts "astype(int) == matrix"; a diagram label is "an integer")
+LABEL_TYPES = ["int", "float"]
+
+
+def build_group(M, route="matrix", style="alpha", inf="zero", container="list", labels="int"):
     """CoxeterGroup for the spec matrix M; the generator with spec index i+1 is names[i]."""
+    return build_group_ex(M, route, style, inf, container, labels)[:2]
+
+
+def build_group_ex(M, route="matrix", style="alpha", inf="zero", container="list", labels="int"):
+    """(group, names, unchanged): `unchanged()` returns None, or a description of how the caller's own
+    input (the array / the list of edges handed to the constructor) differs from what was handed over."""
     from geometry_tools import coxeter
     rank = len(M)
     names = expected_names(rank, route, style)
     LM = lib_matrix(M, inf)
+    conv = float if labels == "float" else int
     if route == "matrix":
-        G = coxeter.CoxeterGroup(matrix=np.array(LM), generator_style=style)
+        arr = np.array(LM, dtype=np.float64 if labels == "float" else np.int64)
+        keep = arr.copy()
+        G = coxeter.CoxeterGroup(matrix=arr, generator_style=style)
+
+        def unchanged():
+            if arr.dtype != keep.dtype or not np.array_equal(arr, keep):
+                return "the caller's matrix is now %r, was %r" % (arr.tolist(), keep.tolist())
     else:
         diagram = []
         for k, (i, j) in enumerate(pairs(rank)):
             # every pair is listed (label 2 included); all but the first edge are written reversed
             if k == 0:
-                diagram.append((names[i], names[j], LM[i][j]))
+                diagram.append((names[i], names[j], conv(LM[i][j])))
             else:
-                diagram.append((names[j], names[i], LM[i][j]))
+                diagram.append((names[j], names[i], conv(LM[i][j])))
+        keep = list(diagram)
         G = coxeter.CoxeterGroup(diagram=pack_diagram(diagram, container))
-    return G, names
+
+        def unchanged():
+            if diagram != keep:
+                return "the caller's diagram is now %r, was %r" % (diagram, keep)
+    return G, names, unchanged
 
 
 def word_names(w, names):
